@@ -506,7 +506,9 @@ class SpecGen:
             node["default_options"] = self.preset()
         if cfg["callbacks"] and r.random() < 0.3 and not selector:
             node["callback"] = True
-            if cfg.get("callback_params") and r.random() < 0.5:
+            if cfg.get("stateful_callables") and r.random() < 0.5:
+                node["callback"] = "stateful"
+            elif cfg.get("callback_params") and r.random() < 0.5:
                 # a callback that is an Evaluatable itself: a pipeline step with an option-valued parameter
                 node["callback_opt"] = self.selector_leaf()
                 self.unused.remove(node["callback_opt"])
